@@ -721,6 +721,12 @@ class SimIn:
                 e = BlockingIOError(errno.EAGAIN, "Resource temporarily unavailable")
             elif kind == "EINTR":
                 e = InterruptedError(errno.EINTR, "Interrupted system call")
+            elif kind == "ENXIO":
+                e = OSError(errno.ENXIO, "No such device or address")
+            elif kind == "ETIMEDOUT":
+                e = TimeoutError(errno.ETIMEDOUT, "Connection timed out")
+            elif kind == "bare":
+                e = OSError("read failed")          # an OSError without an errno (raised by a wrapping stream object)
             else:
                 e = OSError(errno.EIO, "Input/output error")
             e.sim = True
